@@ -33,15 +33,19 @@ fn main() {
             let tags = connexec::TagFiles::new(&tagdir);
             // silence the default panic message: a panic in the code under test is data
             std::panic::set_hook(Box::new(|_| {}));
-            let stdin = std::io::stdin();
+            // Read all scripts first, then close descriptor 0: a detached service has no stdin, and
+            // the first descriptor it receives is then numbered 0 (lowest free number).
+            let mut input = String::new();
+            std::io::Read::read_to_string(&mut std::io::stdin(), &mut input).unwrap();
+            // SAFETY: stdin is not used any more.
+            unsafe { libc::close(0) };
             let stdout = std::io::stdout();
             let mut w = std::io::BufWriter::with_capacity(1 << 20, stdout.lock());
-            for line in stdin.lock().lines() {
-                let line = line.unwrap();
+            for line in input.lines() {
                 if line.trim().is_empty() {
                     continue;
                 }
-                let script: serde_json::Value = serde_json::from_str(&line).unwrap();
+                let script: serde_json::Value = serde_json::from_str(line).unwrap();
                 connexec::run_script(&script, &tags, &mut w);
                 w.flush().unwrap();
             }
